@@ -170,7 +170,7 @@ def run(res, tier, seed):
                 raise vlib.ToolError(f"end-to-end query failed: {e2['error']}")
             kk = f"{v['input']['lookup']}->{e2['kind']}:{e2['hook']}/{e2['full']}"
             e2e_kinds[kk] = e2e_kinds.get(kk, 0) + 1
-            if v["ok"] and v["secure_sets"] > 1:
+            if v["secure_sets"] > 1:
                 res.sample({"zone": {nm(z["n"]): z["ty"] for z in v["input"]["zone"]}, "q": nm(v["input"]["q"]), "t": v["input"]["t"],
                             "rfc1034_lookup": v["input"]["lookup"], "subsets_x_orders_x_soa_offered": v["evals"],
                             "accepted_subsets": v["secure_sets"], "entailed_subsets": v["entailed_sets"],
@@ -247,12 +247,18 @@ def run(res, tier, seed):
     missing = r_forged_keys - confirmed
     if missing:
         raise vlib.ToolError(f"Gen_Nsec and Trace_Nsec disagree on {len(missing)} offered proofs, e.g. {sorted(missing)[0][:400]}")
+    examples = {}
     for m in mism:
         cl = classify(m)
         if not cl:
             raise vlib.ToolError("monitor rejected an event without a reason: " + json.dumps(m)[:600])
         for cls, fields in cl:
             res.mismatch(cls, fields, {"event": describe(m["event"]), "judge": m["judge"], "case": m["case"]})
+            k = cls + ":" + str(fields.get("explained_by", fields.get("expected", fields.get("lookup", ""))) ) + (
+                "->" + str(fields["got"]) if "got" in fields else "")
+            if k not in examples and len(examples) < 40:
+                examples[k] = describe(m["event"])
+    res.extra["disagreement_examples(one per class)"] = examples
 
 
 def replay(res, path):
